@@ -996,3 +996,76 @@ fn block_k(canon: &[EncodingPacket], sbn: u8) -> usize {
 }
 
 thread_local! { static REPAIR: std::cell::Cell<u32> = std::cell::Cell::new(0); }
+
+// ---------------------------------------------------------------- fast path vs full solve (C02): sets whose binary-only
+// system is rank deficient while the full system (with HDPC rows) is not
+pub fn fastpath(rec: &mut Recorder, rng: &mut Rng, thorough: bool) {
+    let n = if thorough { 300 } else { 40 };
+    let mut made = 0;
+    let mut attempts = 0;
+    while made < n && attempts < n * 20 {
+        attempts += 1;
+        let k = *rng.pick(&[10u32, 11, 12, 18, 20, 26, 30, 32, 36, 42]);
+        let kp = rq::extended_source_block_symbols(k);
+        let (s, h, w) = (rq::num_ldpc_symbols(k), rq::num_hdpc_symbols(k), rq::num_lt_symbols(k));
+        let l = kp + s + h;
+        let p = l - w;
+        let (j, p1) = (rq::systematic_index(k), rq::calculate_p1(k));
+        // PI columns not touched by any LDPC row
+        let mut covered = vec![false; p as usize];
+        for i in 0..s { covered[(i % p) as usize] = true; covered[((i + 1) % p) as usize] = true; }
+        let free: Vec<u32> = (0..p).filter(|c| !covered[*c as usize]).collect();
+        if free.is_empty() { continue; }
+        let col = (w + *rng.pick(&free)) as usize;
+        let touches = |isi: u32| -> bool { let mut hit = false; rq::enc_indices(rq::intermediate_tuple(isi, w, j, p1), w, p, p1, |c| if c == col { hit = true; }); hit };
+        // source symbols that avoid the column, minus a few so that the solver is needed
+        let mut src_ok: Vec<u32> = (0..k).filter(|i| !touches(*i)).collect();
+        if (k..kp).any(|i| touches(i)) { continue; } // padding rows are always present
+        rng.shuffle(&mut src_ok);
+        let drop_src = rng.range(2, 4) as usize;
+        src_ok.truncate(src_ok.len().saturating_sub(drop_src));
+        // repair symbols avoiding the column, enough for overhead >= 2H + a few
+        let want = (k as usize + 2 * h as usize + rng.below(4) as usize).saturating_sub(src_ok.len());
+        let mut reps = std::collections::BTreeSet::new();
+        let mut tries = 0;
+        while reps.len() < want && tries < 200000 { tries += 1; let e = pick_repair_esi(rng, k); if !touches(e + (kp - k)) { reps.insert(e); } }
+        if reps.len() < want { continue; }
+        let t = rng.range(1, 3) as u16;
+        let data = rng.bytes(k as usize * t as usize);
+        let cfg = cfg_for(k, t, 1, 1);
+        let enc = SourceBlockEncoder::new(0, &cfg, &data);
+        let src = enc.source_packets();
+        let mut pk: Vec<EncodingPacket> = src_ok.iter().map(|i| src[*i as usize].clone()).collect();
+        pk.extend(reps.iter().map(|e| enc.repair_packets(e - k, 1).remove(0)));
+        rng.shuffle(&mut pk);
+        // streaming (one by one) and bulk
+        let sparse = made % 2 == 0;
+        let pk2 = pk.clone();
+        let r = guarded(move || {
+            let mut dec = SourceBlockDecoder::new(0, &cfg, k as u64 * t as u64);
+            dec.set_sparse_threshold(if sparse { 0 } else { 1 << 30 });
+            let mut outs: Vec<Option<Vec<u8>>> = pk2.iter().map(|p| dec.decode(vec![p.clone()])).collect();
+            let mut bulk = SourceBlockDecoder::new(0, &cfg, k as u64 * t as u64);
+            outs.push(bulk.decode(pk2.clone()));
+            outs
+        });
+        let mut batches: Vec<String> = pk.iter().map(|p| format!("{}:{}", p.payload_id().encoding_symbol_id(), hex(p.data()))).collect();
+        let req_stream = format!("decblk {k} {t} 1 1 {}", batches.join("/"));
+        let req_bulk = format!("decblk {k} {t} 1 1 {}", batches.join(","));
+        batches.clear();
+        match r {
+            Ok(outs) => {
+                let (stream, bulk) = outs.split_at(outs.len() - 1);
+                let mut seen = false;
+                for o in stream { match o { Some(b) if *b != data => rec.impl_violation(format!("wrong bytes K={k}")), Some(_) => seen = true, None if seen => rec.impl_violation(format!("block decoder gives up after having answered: K={k} T={t}, binary-deficient set avoiding column {col} ({} symbols)", pk.len())), None => {} } }
+                rec.put(&req_stream, &stream.iter().map(res_str).collect::<Vec<_>>().join(" "));
+                rec.put(&req_bulk, &res_str(&bulk[0]));
+                rec.put(&format!("deccase {k} {t} {}", req_bulk.rsplit(' ').next().unwrap()), if bulk[0].is_some() { "Rq.DecCase.c3b" } else { "Rq.DecCase.c3fail" });
+                rec.count(if bulk[0].is_some() { "fastpath_full_solve_succeeds" } else { "fastpath_both_fail" });
+            }
+            Err(_) => { rec.impl_violation(format!("decoder panics on a binary-deficient set K={k}")); rec.put(&req_bulk, "err"); }
+        }
+        made += 1;
+    }
+    rec.add("fastpath_sets", made as u64);
+}
